@@ -15,7 +15,7 @@
                  admissible encoding.                                                     *)
 EXTENDS TLSRecord, TLC, Json, SequencesExt
 
-CONSTANTS Parts, MaxRec, MaxFaults, AllPlans, Out      \* Parts: subset of {"sched","pad","fmt","combos"}; Out: file name prefix
+CONSTANTS Parts, MaxRec, MaxFaults, AllPlans, Out      \* Parts: subset of {"sched","pad","fmt","seqfmt","long","combos"}; Out: file name prefix
 
 ----------------------------------------------------------------------------
 (* schedules *)
@@ -123,6 +123,66 @@ FmtCase(fc, sq) ==
 FmtCases == FlatSeq([a \in 1..Len(FmtClasses) |-> [b \in 1..Len(FmtSeqs) |-> FmtCase(FmtClasses[a], FmtSeqs[b])]])
 
 ----------------------------------------------------------------------------
+(* sequence-number boundaries at function level: halfConn is put at a sequence number S on a carry
+   boundary (hook setter), two records are protected; demanded: the record bytes with the 8-octet S
+   resp. S+1 in MAC input / additional data / nonce, and the sequence number afterwards.  At 2^64-1
+   ("sequence numbers do not wrap") the record may be refused; if it is produced it must be the right
+   one and nothing may follow.                                                                    *)
+B8(a, b, c, d, e, f, g, h) == <<a, b, c, d, e, f, g, h>>
+SeqBoundaries == << Zero8, B8(0,0,0,0,0,0,0,255), B8(0,0,0,0,0,0,255,255), B8(0,0,0,0,0,255,255,255),
+                    B8(0,0,0,0,255,255,255,255), B8(0,255,255,255,255,255,255,255), B8(0,0,0,0,0,0,1,255),
+                    B8(255,255,255,255,255,255,255,254), Max8 >>
+SeqFmtCase(fc, start) ==
+  LET nums == IF start = Max8 THEN <<start>> ELSE <<start, SeqInc(start)>>
+      lens == <<13, 20>>
+  IN [rp |-> fc.rp, suite |-> fc.suite, keyLen |-> fc.keyLen, ivLen |-> fc.ivLen, start |-> start,
+      recs |-> [i \in 1..Len(nums) |->
+        [typ |-> 23, n |-> lens[i], num |-> nums[i], last |-> nums[i] = Max8,
+         after |-> IF nums[i] = Max8 THEN <<>> ELSE SeqInc(nums[i]),
+         binds |-> BindsOf(fc.rp, i),
+         options |-> LET os == SetToSeq(Options(fc.rp, lens[i])) IN
+           [k \in 1..Len(os) |-> [opt |-> os[k],
+                                  term |-> RecordTermS(fc.rp, i, nums[i], 23, lens[i],
+                                                       IF fc.rp.cls = "stream" /\ i = 2 THEN lens[1] + HLen(fc.rp.mach) ELSE 0,
+                                                       os[k], fc.keyLen, fc.ivLen)]]]]]
+SeqFmtCases == FlatSeq([a \in 1..Len(FmtClasses) |-> [b \in 1..Len(SeqBoundaries) |-> SeqFmtCase(FmtClasses[a], SeqBoundaries[b])]])
+
+(* long streams: 600 one-record writes, faults between records whose distance is a multiple of, or next
+   to, 255 / 256 - where a sequence number that loses its carry would repeat                       *)
+LongK == 600
+LongFaults ==
+  UNION {{ Fault("swap", i, i + 254), Fault("swap", i, i + 255), Fault("swap", i, i + 256), Fault("swap", i, i + 510),
+           Fault("dup", i, i + 253), Fault("dup", i, i + 254), Fault("dup", i, i + 255), Fault("dup", i, i + 256),
+           Fault("dup", i, i + 509), Fault("dup", i, i + 510) } : i \in {2, 3, 41, 90}}
+(* Outcome without recursion over the wire (the schedules above are 4 records long, these 601; constant
+   evaluation happens on TLC's main thread with a small stack): the receiver accepts the longest prefix
+   of records that are authentic and in place, up to and including the first close_notify in it.
+   OutcomeNR = Outcome is asserted on every short schedule.                                          *)
+SumLensNR(rs) == FoldSeq(LAMBDA x, acc : acc + x.len, 0, rs)
+OutcomeNR(w) ==
+  LET good(i) == w[i].auth /\ w[i].seq = i
+      P == {p \in 0..Len(w) : \A i \in 1..p : good(i)}
+      p == CHOOSE x \in P : \A y \in P : y <= x
+      closes == {i \in 1..p : w[i].close}
+  IN IF closes # {}
+     THEN LET c == CHOOSE x \in closes : \A y \in closes : x <= y IN
+          [bytes |-> SumLensNR(SubSeq(w, 1, c - 1)), accepted |-> c, ends |-> {"eof"}]
+     ELSE [bytes |-> SumLensNR(SubSeq(w, 1, p)), accepted |-> p,
+           ends |-> IF p < Len(w) THEN {"error"} ELSE {"eof", "error"}]
+
+LongCase(c, fs) ==
+  LET writes == [i \in 1..LongK |-> <<3>>]
+      w0 == [i \in 1..(LongK + 1) |-> Rec(i, IF i <= LongK THEN 3 ELSE 0, i = LongK + 1)]
+      w1 == ApplyFaults(w0, fs)
+      o == OutcomeNR(w1)
+  IN [id |-> 100000 + c, K |-> LongK, plan |-> "singles", writes |-> writes, faults |-> fs,
+      mod |-> "mid", seg |-> SegClasses[(c % Len(SegClasses)) + 1], readsz |-> <<100, 16384, 70000>>[(c % 3) + 1],
+      lens |-> [i \in 1..Len(w0) |-> w0[i].len],
+      bytes |-> o.bytes, accepted |-> o.accepted, ends |-> SetToSeq(o.ends), total |-> 3 * LongK]
+LongCases == LET fs == <<<<>>>> \o [i \in 1..Cardinality(LongFaults) |-> <<SetToSeq(LongFaults)[i]>>]
+             IN [c \in 1..Len(fs) |-> LongCase(c, fs[c])]
+
+----------------------------------------------------------------------------
 (* the combinations two zcrypto endpoints negotiate (server side: tls/cipher_suites.go cipherSuites;
    RSA-authenticated suites with an RSA server key, ECDSA ones with an ECDSA key; TLS 1.2-only suites at
    TLS 1.2 only; the three TLS 1.3 suites with either key).  Used as a coverage obligation only:
@@ -140,6 +200,8 @@ FileOf(part) == Out \o part \o ".ndjson"
 DoPart(part) ==
   CASE part = "sched" -> LET cs == SchedCases IN
          /\ \A i \in 1..Len(cs) : Assert(FragmentationOK(cs[i].v.writes), <<"plan violates the record size limit", i>>)
+         /\ \A i \in 1..Len(cs) : LET w == ApplyFaults(SenderRecords(cs[i].v.writes, TRUE), cs[i].v.faults) IN
+                                    Assert(OutcomeNR(w) = Outcome(w), <<"OutcomeNR differs from Outcome", i>>)
          /\ ndJsonSerialize(FileOf(part), [i \in 1..Len(cs) |-> cs[i].v])
          /\ PrintT(ToJson([part |-> "sched", cases |-> Len(cs),
                            errors |-> Cardinality({i \in 1..Len(cs) : cs[i].v.ends = <<"error">>}),
@@ -153,6 +215,16 @@ DoPart(part) ==
               WellFormed(cs[i].recs[j].options[k].term)
          /\ ndJsonSerialize(FileOf(part), cs)
          /\ PrintT(ToJson([part |-> "fmt", cases |-> Len(cs)]))
+    [] part = "seqfmt" -> LET cs == SeqFmtCases IN
+         /\ \A i \in 1..Len(cs) : \A j \in 1..Len(cs[i].recs) : \A k \in 1..Len(cs[i].recs[j].options) :
+              WellFormed(cs[i].recs[j].options[k].term)
+         /\ ndJsonSerialize(FileOf(part), cs)
+         /\ PrintT(ToJson([part |-> "seqfmt", cases |-> Len(cs)]))
+    [] part = "long" -> LET cs == LongCases IN
+         /\ \A i \in 1..Len(cs) : Assert(Len(cs[i].faults) = 0 \/ Applicable([k \in 1..(LongK + 1) |-> Rec(k, 3, FALSE)], cs[i].faults[1]), <<"fault not applicable", i>>)
+         /\ ndJsonSerialize(FileOf(part), cs)
+         /\ PrintT(ToJson([part |-> "long", cases |-> Len(cs),
+                           errors |-> Cardinality({i \in 1..Len(cs) : cs[i].ends = <<"error">>})]))
     [] part = "combos" ->
          /\ ndJsonSerialize(FileOf(part), SetToSeq({[ver |-> c[1], suite |-> c[2], key |-> c[3]] : c \in ExpectedCombos}))
          /\ PrintT(ToJson([part |-> "combos", cases |-> Cardinality(ExpectedCombos)]))
